@@ -96,7 +96,7 @@ func c16prop(r *simkit.Run) {
 	fault := "none"
 	if rapid.IntRange(0, 2).Draw(rt, "fault?") > 0 {
 		fault = rapid.SampledFrom([]string{"refused", "dial-timeout", "close-before-head", "reset-before-head", "close-in-head", "reset-in-head", "garbage-head",
-			"close-in-body", "reset-in-body", "header-timeout", "client-gone-before-response", "client-gone-mid-body"}).Draw(rt, "fault")
+			"close-in-body", "reset-in-body", "header-timeout", "deadline-timeout", "client-gone-before-response", "client-gone-mid-body"}).Draw(rt, "fault")
 	}
 	if fault == "client-gone-mid-body" {
 		// needs a long fixed-length body (see below)
@@ -184,6 +184,10 @@ func c16prop(r *simkit.Run) {
 	case "header-timeout":
 		spec.plan.cutAt, spec.plan.then = 0, "stall"
 		spec.headerTimeout = 25 * time.Millisecond
+	case "deadline-timeout":
+		// the backend's time is limited by a deadline on the request context (a timeout middleware in front), the backend stays silent
+		spec.plan.cutAt, spec.plan.then = 0, "stall"
+		spec.ctxTimeout = 25 * time.Millisecond
 	case "client-gone-before-response":
 		spec.plan.cutAt, spec.plan.then = 0, "stall"
 		spec.clientCloseWhenBackendHasRequest = true
@@ -253,7 +257,7 @@ func c16prop(r *simkit.Run) {
 	case "dial-timeout":
 		expectStatus("dial timed out", 502, 504)
 		r.Fault(fault)
-	case "header-timeout":
+	case "header-timeout", "deadline-timeout":
 		expectStatus("backend response timeout", 504)
 		r.Fault(fault)
 	case "close-in-head", "reset-in-head", "garbage-head":
